@@ -88,6 +88,10 @@ func vpCallback(kind string) func(context.Context, string) (bool, error) {
 		}
 		r := vpBool("cb-" + kind + strconv.Itoa(len(vpCbLog)))
 		vpCbRes = append(vpCbRes, r)
+		if !r && vpBool("cb-refuses-with-error-"+kind+strconv.Itoa(len(vpCbLog))) {
+			// the repository's own policies refuse with (false, error): security.CheckHost, CheckPAACookie
+			return false, errors.New("vp: refused by policy")
+		}
 		return r, nil
 	}
 }
